@@ -5,10 +5,10 @@ from hc_oracles import grammar_oracle, ep_crash_oracle
 
 PROP = "C08"
 COQ_FILE = "props/C08.v"
-THEOREMS = ['C08_client_step_grammar', 'C08_client_event_stream_wellformed']
+THEOREMS = ['C08_client_step_grammar', 'C08_client_event_stream_wellformed', 'C08_server_event_stream_wellformed']
 USES_FLOATS = True
 NEEDS_RELEASE = False
-ASSUMPTIONS = ["proved in full for the Client model over ALL operation sequences (automaton acceptance of the whole event log); the Server's per-address grammar is decided by the grammar oracle on the implementation and by correspondence (partial for the server side)"]
+ASSUMPTIONS = ["proved over ALL operation sequences for the Client model (automaton acceptance of the whole event log) and for the Server model (C08_server_event_stream_wellformed: for every history and every address the events about it, with the application's drop calls interleaved, are accepted by Idle -Connect-> Conn -Receive*-> Conn -Disconnect|Error|drop-> Idle; invariant over address table / object states, proofs/ServerGrammar.v)", "the same grammar is checked on the implementation by the grammar oracle on lifecycle/forge/limits streams; tie by correspondence over real sockets"]
 THEOREM_STATEMENTS = []
 QUICK = {"lifecycle": 40, "forge": 60, "limits": 60, "amplify": 60, "timers": 50}
 
